@@ -286,3 +286,42 @@ def reduce_tree(text, still, budget=400):
                 cur, progress = c, True
                 break
     return cur, used
+
+
+# --------------------------------------------------------------------------- plain text ddmin (fuzz inputs)
+def ddmin_text(text, still, budget=300):
+    """Delta debugging on lines, then on characters; ``still(t)`` must be cheap and side-effect free."""
+    used = [0]
+
+    def test(t):
+        if used[0] >= budget:
+            return False
+        used[0] += 1
+        try:
+            return bool(still(t))
+        except Exception:
+            return False
+
+    def dd(units, join):
+        n = 2
+        while len(units) >= 2 and used[0] < budget:
+            size = max(1, len(units) // n)
+            chunks = [units[i:i + size] for i in range(0, len(units), size)]
+            reduced = False
+            for i in range(len(chunks)):
+                cand = [u for j, c in enumerate(chunks) if j != i for u in c]
+                if cand and test(join(cand)):
+                    units, n, reduced = cand, max(n - 1, 2), True
+                    break
+            if not reduced:
+                if size == 1:
+                    break
+                n = min(n * 2, len(units))
+        return units
+
+    lines = dd(text.split("\n"), "\n".join)
+    text = "\n".join(lines)
+    if len(text) <= 200:
+        chars = dd(list(text), "".join)
+        text = "".join(chars)
+    return text, used[0]
